@@ -645,6 +645,29 @@ Section Completeness.
     rewrite Ls, premerge_gindex_depth. reflexivity.
   Qed.
 
+  (* the same for an accumulator of which only the addressed entry is known to be the root of a tree (used for the prover) *)
+  Theorem honest_pre_merge_entry g epochs roots sums oracle n t s ss :
+    n < K_MergeBlockNumber ->
+    nth_error epochs (N.to_nat (n / K_EpochSize)) = Some (troot t) ->
+    subtree t (path_of 15 (premerge_gindex n)) = Some s ->
+    siblings t (path_of 15 (premerge_gindex n)) = Some ss ->
+    Forall len32 ss ->
+    validate_header_and_proof H g epochs roots sums oracle n (troot s) (concat (rev ss)) = Ok tt.
+  Proof.
+    intros L0 Et Hs Hsib F. unfold validate_header_and_proof. replace (n <? K_MergeBlockNumber) with true by lia.
+    unfold validate_pre_merge.
+    rewrite (idxN_of_nth _ _ (troot t)) by exact Et. cbn [bind].
+    pose proof (siblings_length H _ _ _ Hsib) as Ls. rewrite path_of_length in Ls.
+    assert (Fr : Forall len32 (rev ss)) by now apply Forall_rev.
+    assert (Lr : length (rev ss) = 15%nat) by now rewrite rev_length.
+    unfold turn_to_premerge_proof. rewrite (concat_len32 _ Fr), Lr.
+    change (Nat.eqb (Nat.modulo (15 * 32) 32) 0) with true. cbn [negb]. change (Nat.div (15 * 32) 32) with 15%nat.
+    pose proof (chunks_at_concat (rev ss) 0 [] [] Fr eq_refl) as E. cbn [app] in E. rewrite app_nil_r, Lr in E.
+    rewrite E. cbn [bind]. fold (premerge_gindex n).
+    rewrite verify_gindex_complete; [reflexivity| |rewrite Ls; exact Hs|rewrite Ls; exact Hsib].
+    rewrite Ls, premerge_gindex_depth. reflexivity.
+  Qed.
+
   Lemma two_stage_complete ge ne depth gen acc_t bt es bsibs esibs :
     subtree acc_t (path_of depth gen) = Some bt -> siblings acc_t (path_of depth gen) = Some bsibs ->
     subtree bt (path_of ne ge) = Some es -> siblings bt (path_of ne ge) = Some esibs ->
